@@ -157,16 +157,25 @@ func makeStructInfo(name string, names []string, t reflect.Type) (info structInf
 // ReadStruct reads struct type.
 func (dec *Decoder) ReadStruct(t reflect.Type) {
 	name := dec.ReadSafeString()
-	count := dec.ReadInt()
-	names := make([]string, count)
-	for i := 0; i < count; i++ {
-		dec.decodeString(stringType, dec.NextByte(), &names[i])
+	count := dec.readCount()
+	names := make([]string, 0, prealloc(count))
+	for i := 0; i < count && dec.Error == nil; i++ {
+		var name string
+		dec.decodeString(stringType, dec.NextByte(), &name)
+		names = append(names, name)
 	}
 	dec.Skip()
 	dec.ref = append(dec.ref, makeStructInfo(name, names, t))
 }
 
 func (dec *Decoder) getStructInfo(index int) structInfo {
+	if index < 0 || index >= len(dec.ref) {
+		// an object that refers to a class the stream has not defined
+		if dec.Error == nil {
+			dec.Error = ErrInvalidLength
+		}
+		return structInfo{}
+	}
 	return dec.ref[index]
 }
 
